@@ -928,4 +928,72 @@ theorem MGHyp.of_top (S : MGSetup K)
 
 end inherit
 
+/-! ### the executable Galerkin chain satisfies the Galerkin relation -/
+
+section chain
+variable {K : Type} [Field K] [DecidableEq K]
+
+theorem getD_range_map' {β : Type} (n : ℕ) (g : ℕ → β) (i : ℕ) (d : β) :
+    ((List.range n).map g).getD i d = if i < n then g i else d := by
+  by_cases h : i < n <;> simp [List.getD_eq_getElem?_getD, h]
+
+theorem getD_append_left' {β : Type} (l₁ l₂ : List β) (i : ℕ) (d : β) (h : i < l₁.length) :
+    (l₁ ++ l₂).getD i d = l₁.getD i d := by
+  simp [List.getD_eq_getElem?_getD, List.getElem?_append_left h]
+
+theorem getD_append_right' {β : Type} (l₁ l₂ : List β) (i : ℕ) (d : β) (h : l₁.length ≤ i) :
+    (l₁ ++ l₂).getD i d = l₂.getD (i - l₁.length) d := by
+  simp [List.getD_eq_getElem?_getD, List.getElem?_append_right h]
+
+theorem matFn_galerkinL (n m : ℕ) (A P : List (List K)) (i j : ℕ) (hi : i < m) (hj : j < m) :
+    matFn (galerkinL n m A P) i j = galerkinEntry n (matFn A) (matFn P) i j := by
+  unfold galerkinL
+  simp only [matFn]
+  rw [getD_range_map', if_pos hi, getD_range_map, if_pos hj]
+  unfold galerkinEntry
+  rw [sumTo_eq_sum, sumTo_eq_sum]
+  apply sum_congr rfl; intro k hk
+  rw [getD_range_map', if_pos (mem_range.mp hk), getD_range_map, if_pos hj]
+  rfl
+
+theorem length_galerkinChain (size : ℕ → ℕ) (Ps : ℕ → List (List K)) (A : List (List K)) (top : ℕ) :
+    (galerkinChain size Ps A top).length = top + 1 := by
+  induction top generalizing A with
+  | zero => rfl
+  | succ top ih => simp [galerkinChain, ih]
+
+theorem galerkinChain_top (size : ℕ → ℕ) (Ps : ℕ → List (List K)) (A : List (List K)) (top : ℕ) :
+    (galerkinChain size Ps A top).getD top [] = A := by
+  cases top with
+  | zero => rfl
+  | succ top =>
+    simp only [galerkinChain]
+    rw [getD_append_right' _ _ _ _ (by rw [length_galerkinChain])]
+    simp [length_galerkinChain]
+
+/-- `As = [A]; for P in reversed(Ps): As.append(P.T·As[-1]·P); As.reverse()` as executed by the
+driver yields matrices related by `MGHyp.gal`. -/
+theorem galerkinChain_gal (size : ℕ → ℕ) (Ps : ℕ → List (List K)) (A : List (List K)) (top : ℕ) :
+    ∀ lv < top, ∀ i < size lv, ∀ j < size lv,
+      matFn ((galerkinChain size Ps A top).getD lv []) i j
+        = galerkinEntry (size (lv + 1)) (matFn ((galerkinChain size Ps A top).getD (lv + 1) []))
+            (matFn (Ps lv)) i j := by
+  induction top generalizing A with
+  | zero => intro lv hlv; omega
+  | succ top ih =>
+    intro lv hlv i hi j hj
+    simp only [galerkinChain]
+    have hlen := length_galerkinChain size Ps (galerkinL (size (top + 1)) (size top) A (Ps top)) top
+    rw [getD_append_left' _ _ _ _ (by rw [hlen]; omega)]
+    by_cases h : lv < top
+    · rw [getD_append_left' _ _ _ _ (by rw [hlen]; omega)]
+      exact ih _ lv h i hi j hj
+    · have e : lv = top := by omega
+      subst e
+      rw [getD_append_right' _ _ _ _ (by rw [hlen]), galerkinChain_top]
+      simp only [hlen, Nat.sub_self, List.getD_cons_zero]
+      exact matFn_galerkinL _ _ _ _ i j hi hj
+
+end chain
+
 end Pyiga.Relax
